@@ -21,7 +21,7 @@ func TestMain(m *testing.M) {
 	vt.Main(m)
 }
 
-var expiries = []time.Duration{-time.Second, 0, time.Second, 10 * time.Second, time.Minute}
+var expiries = []time.Duration{-time.Second, 0, time.Second, 10 * time.Second, time.Minute, time.Duration(math.MaxInt64), 2562047 * time.Hour, time.Duration(math.MinInt64), 1}
 var steps = []time.Duration{0, 1, time.Second - 1, time.Second, time.Second + 1, 10*time.Second - 1, 10 * time.Second, 10*time.Second + 1,
 	time.Minute - 1, time.Minute, time.Minute + 1, 500 * time.Millisecond, 3 * time.Second, 2 * time.Minute}
 
